@@ -37,13 +37,30 @@ Definition errkind_eqb (a b : errkind) : bool :=
 Lemma errkind_eqb_eq a b : errkind_eqb a b = true <-> a = b.
 Proof. destruct a, b; cbn; split; congruence. Qed.
 
-(** one collision file: "Basis Size", "Basis Type", and the identity of its numbers *)
-Record file := mkfile { f_size : nat; f_basis : basis; f_data : nat }.
+(** shape of the dataset relative to the (N-1)^4 its own metadata announces: as announced /
+    not broadcastable into the slot (numpy ValueError on the store) / lower rank or extent 1
+    (numpy broadcasts it silently) / dataset absent (KeyError on the read) *)
+Inductive dshape := ShapeOk | ShapeSmaller | ShapeBroadcast | ShapeMissing.
+Definition dshape_eqb (a b : dshape) : bool :=
+  match a, b with
+  | ShapeOk, ShapeOk | ShapeSmaller, ShapeSmaller | ShapeBroadcast, ShapeBroadcast
+  | ShapeMissing, ShapeMissing => true
+  | _, _ => false
+  end.
+Lemma dshape_eqb_eq a b : dshape_eqb a b = true <-> a = b.
+Proof. destruct a, b; cbn; split; congruence. Qed.
+
+(** one collision file: "Basis Size", "Basis Type", the identity of its numbers, and the shape
+    of the dataset *)
+Record file := mkfile { f_size : nat; f_basis : basis; f_data : nat; f_shape : dshape }.
 (** a directory, keyed by the ordered pair of particle ids (names) *)
 Definition directory := nat -> nat -> option file.
 
 (** *** facts extracted from the source *)
-Inductive guard := GOversized | GUnknownBasis | GSizeMismatch | GBasisMismatch.
+(** [GDatasetMissing]: the dataset is looked up (explicit check, or the read itself: KeyError);
+    [GDatasetShape]: explicit comparison of the dataset's shape with 4 * (size - 1,) *)
+Inductive guard := GOversized | GUnknownBasis | GSizeMismatch | GBasisMismatch
+                 | GDatasetMissing | GDatasetShape.
 Inductive whichbasis := FileBasis | RequestedBasis | ConstBasis (b : basis).
 Inductive whichsize := FileSize | TargetSize.
 Inductive lstmt := SClear | SLoadStore.
@@ -115,6 +132,8 @@ Definition guard_fails (g : guard) (N : nat) (f : file) (hd : option (nat * basi
   | GUnknownBasis, _ => negb (known (f_basis f))
   | GSizeMismatch, Some (sz, _) => negb (f_size f =? sz)
   | GBasisMismatch, Some (_, bt) => negb (basis_eqb (f_basis f) bt)
+  | GDatasetMissing, _ => dshape_eqb (f_shape f) ShapeMissing
+  | GDatasetShape, _ => negb (dshape_eqb (f_shape f) ShapeOk)
   | _, None => false
   end.
 
@@ -140,13 +159,24 @@ Definition step (dir : directory) (N : nat) (parts : list nat) (st : lstate) (p 
     match first_fail (c_guards_every c) N f (fst st) with
     | Some k => Err k
     | None =>
-      let blk := mkblock (f_data f) (f_size f) (f_basis f) true in
+      (* collisionFileArray[i, :, :, j, :, :] = collisionDataset : numpy broadcasting *)
+      let stored := match f_shape f with
+                    | ShapeOk => Ok (mkblock (f_data f) (f_size f) (f_basis f) true)
+                    | ShapeBroadcast => Ok (mkblock (f_data f) (f_size f) (f_basis f) false)
+                    | ShapeSmaller | ShapeMissing => Err OtherError
+                    end in
       match fst st with
-      | None => Ok (Some (f_size f, f_basis f), upd (snd st) (fst sp) (snd sp) blk)
+      | None => match stored with
+                | Ok blk => Ok (Some (f_size f, f_basis f), upd (snd st) (fst sp) (snd sp) blk)
+                | Err k => Err k
+                end
       | Some hd =>
         match first_fail (c_guards_later c) N f (Some hd) with
         | Some k => Err k
-        | None => Ok (Some hd, upd (snd st) (fst sp) (snd sp) blk)
+        | None => match stored with
+                  | Ok blk => Ok (Some hd, upd (snd st) (fst sp) (snd sp) blk)
+                  | Err k => Err k
+                  end
         end
       end
     end
@@ -248,7 +278,8 @@ Definition is_cle (k : errkind) : bool := errkind_eqb k CollisionLoadError.
 Definition guard_eqb (a b : guard) : bool :=
   match a, b with
   | GOversized, GOversized | GUnknownBasis, GUnknownBasis
-  | GSizeMismatch, GSizeMismatch | GBasisMismatch, GBasisMismatch => true
+  | GSizeMismatch, GSizeMismatch | GBasisMismatch, GBasisMismatch
+  | GDatasetMissing, GDatasetMissing | GDatasetShape, GDatasetShape => true
   | _, _ => false
   end.
 Definition has_guard (g : guard) (gs : list (guard * errkind)) : bool :=
@@ -283,6 +314,7 @@ Definition data_good : bool :=
   forallb (fun p => match fst p with GSizeMismatch | GBasisMismatch => false | _ => true end)
           (c_guards_every c) &&
   has_guard GOversized (c_guards_every c) &&
+  has_guard GDatasetShape (c_guards_every c) &&
   has_guard GSizeMismatch (c_guards_later c) && has_guard GBasisMismatch (c_guards_later c) &&
   is_file (c_direct_label c) && is_file (c_interp_label c) &&
   match c_interp_size c with FileSize => true | _ => false end &&
@@ -363,6 +395,7 @@ Ltac split_good :=
 Lemma g_key : c_key_order c = true. Proof. split_good; assumption. Qed.
 Lemma g_store : c_store_order c = true. Proof. split_good; assumption. Qed.
 Lemma g_over : has_guard GOversized (c_guards_every c) = true. Proof. split_good; assumption. Qed.
+Lemma g_shape : has_guard GDatasetShape (c_guards_every c) = true. Proof. split_good; assumption. Qed.
 Lemma g_size : has_guard GSizeMismatch (c_guards_later c) = true. Proof. split_good; assumption. Qed.
 Lemma g_basis : has_guard GBasisMismatch (c_guards_later c) = true. Proof. split_good; assumption. Qed.
 Lemma g_direct : c_direct_label c = FileBasis.
@@ -414,7 +447,9 @@ Record inv (dir : directory) (N : nat) (parts : list nat) (done : list (nat * na
       dir (nth (fst p) parts 0) (nth (snd p) parts 0) = Some f /\ fst st = Some hd /\
       hd_ok N f hd /\ N <= f_size f /\
       snd st (fst p) (snd p) = Some (mkblock (f_data f) (f_size f) (f_basis f) true);
-  inv_other : forall i j, ~ In (i, j) done -> snd st i j = None
+  inv_other : forall i j, ~ In (i, j) done -> snd st i j = None;
+  inv_shape : forall p f, In p done ->
+      dir (nth (fst p) parts 0) (nth (snd p) parts 0) = Some f -> f_shape f = ShapeOk
 }.
 
 Lemma step_inv dir N parts done st p st' :
@@ -427,6 +462,8 @@ Proof.
   destruct (first_fail (c_guards_every c) N f (fst st)) eqn:E1; [discriminate|].
   pose proof (first_fail_none _ _ _ _ GOversized E1 g_over) as Hov. cbn in Hov.
   apply Nat.ltb_ge in Hov.
+  pose proof (first_fail_none _ _ _ _ GDatasetShape E1 g_shape) as Hsh. cbn in Hsh.
+  apply negb_false_iff in Hsh. apply dshape_eqb_eq in Hsh. rewrite Hsh in Hs.
   assert (Hupd : forall m b i j, (i, j) <> p ->
             upd m (fst p) (snd p) b i j = m i j).
   { intros m b i j Hne. unfold upd.
@@ -451,6 +488,9 @@ Proof.
     + intros i j Hn. rewrite Hupd.
       * apply (inv_other _ _ _ _ _ I). intros Hin. apply Hn. apply in_or_app; left; exact Hin.
       * intros Heq. apply Hn. apply in_or_app; right; left; symmetry; exact Heq.
+    + intros q f' Hq Hf'. apply in_app_or in Hq. destruct Hq as [Hq|[<-|[]]].
+      * eapply (inv_shape _ _ _ _ _ I); eauto.
+      * rewrite Ef in Hf'. injection Hf' as <-. exact Hsh.
   - injection Hs as <-.
     assert (Hd : done = []).
     { destruct done as [|q done']; [reflexivity|].
@@ -461,6 +501,7 @@ Proof.
     + intros i j Hn. rewrite Hupd.
       * apply (inv_other _ _ _ _ _ I). intros [].
       * intros Heq. apply Hn. left; symmetry; exact Heq.
+    + intros q f' [<-|[]] Hf'. rewrite Ef in Hf'. injection Hf' as <-. exact Hsh.
 Qed.
 
 Lemma loop_inv dir N parts : forall ps done st st',
@@ -559,7 +600,7 @@ Proof.
 Qed.
 
 Lemma inv_nil dir N parts : inv dir N parts [] (None, fun _ _ => None).
-Proof. constructor; cbn; [congruence|intros p []|reflexivity]. Qed.
+Proof. constructor; cbn; [congruence|intros p []|reflexivity|intros p f []]. Qed.
 
 Theorem load_complete dir N req parts a :
   newFromDirectory c dir N req parts true = Ok a ->
@@ -621,7 +662,9 @@ Proof.
   pose proof (W _ _ _ Ef) as Hk.
   destruct (first_fail (c_guards_every c) N f (fst st)) eqn:E1.
   - injection Es as <-. eapply first_fail_kind; eauto. apply g_every_kind.
-  - destruct (fst st); [|discriminate].
+  - pose proof (first_fail_none _ _ _ _ GDatasetShape E1 g_shape) as Hsh. cbn in Hsh.
+    apply negb_false_iff in Hsh. apply dshape_eqb_eq in Hsh. rewrite Hsh in Es.
+    destruct (fst st); [|discriminate].
     destruct (first_fail (c_guards_later c) N f (Some p0)) eqn:E2; [|discriminate].
     injection Es as <-. eapply first_fail_kind; eauto. apply g_later_kind.
 Qed.
@@ -668,11 +711,11 @@ Qed.
 
 (** *** a fault-free directory loads (so errors come only from the stated faults) *)
 Lemma first_fail_clean gs N f hd :
-  N <= f_size f -> known (f_basis f) = true ->
+  N <= f_size f -> known (f_basis f) = true -> f_shape f = ShapeOk ->
   (forall sz bt, hd = Some (sz, bt) -> f_size f = sz /\ f_basis f = bt) ->
   first_fail gs N f hd = None.
 Proof.
-  intros Hn Hk Hh. induction gs as [|[g k] gs IH]; cbn; [reflexivity|].
+  intros Hn Hk Hs Hh. induction gs as [|[g k] gs IH]; cbn; [reflexivity|].
   replace (guard_fails g N f hd) with false; [exact IH|]. symmetry.
   destruct g; cbn.
   - apply Nat.ltb_ge; exact Hn.
@@ -681,27 +724,30 @@ Proof.
     rewrite Nat.eqb_refl; reflexivity.
   - destruct hd as [[sz bt]|]; [|reflexivity]. destruct (Hh sz bt eq_refl) as [_ ->].
     replace (basis_eqb bt bt) with true; [reflexivity|]. symmetry; apply basis_eqb_eq; reflexivity.
+  - rewrite Hs; destruct hd; reflexivity.
+  - rewrite Hs; destruct hd; reflexivity.
 Qed.
 
 Definition fault_free (dir : directory) (N : nat) (parts : list nat) : Prop :=
   exists sz bt, N <= sz /\ known bt = true /\
     forall i j, i < length parts -> j < length parts ->
-      exists f, dir (nth i parts 0) (nth j parts 0) = Some f /\ f_size f = sz /\ f_basis f = bt.
+      exists f, dir (nth i parts 0) (nth j parts 0) = Some f /\ f_size f = sz /\ f_basis f = bt /\
+                f_shape f = ShapeOk.
 
 Lemma loop_clean dir N parts sz bt :
   N <= sz -> known bt = true ->
   forall ps st,
   (forall p, In p ps -> exists f, dir (nth (fst p) parts 0) (nth (snd p) parts 0) = Some f /\
-                                  f_size f = sz /\ f_basis f = bt) ->
+                                  f_size f = sz /\ f_basis f = bt /\ f_shape f = ShapeOk) ->
   (forall hd, fst st = Some hd -> hd = (sz, bt)) ->
   exists st', loop c dir N parts ps st = Ok st'.
 Proof.
   intros Hn Hk. induction ps as [|p ps IH]; intros st Hf Hh; cbn [loop]; [eauto|].
-  destruct (Hf p (or_introl eq_refl)) as (f & Ef & Es & Eb).
-  unfold step. rewrite g_key, g_store. cbn [swap_if]. rewrite Ef.
+  destruct (Hf p (or_introl eq_refl)) as (f & Ef & Es & Eb & Esh).
+  unfold step. rewrite g_key, g_store. cbn [swap_if]. rewrite Ef, Esh.
   assert (Hc : forall hd, (forall h, hd = Some h -> h = (sz, bt)) ->
                forall gs, first_fail gs N f hd = None).
-  { intros hd Hhd gs. apply first_fail_clean; [lia|congruence|].
+  { intros hd Hhd gs. apply first_fail_clean; [lia|congruence|exact Esh|].
     intros sz' bt' E. specialize (Hhd _ E). injection Hhd as -> ->. auto. }
   rewrite Hc by (intros h E; apply Hh; exact E).
   destruct (fst st) as [hd|] eqn:Eh.
@@ -729,8 +775,9 @@ Proof.
     split; [lia|]. split; [rewrite <- C2; eapply W; eauto|].
     intros i j Hi Hj.
     destruct (inv_blocks _ _ _ _ _ I (i, j) (pairs_complete _ i j Hi Hj))
-      as (f' & hd' & A' & B' & [C1' C2'] & _). cbn in B'. injection B' as <-. cbn in *.
-    exists f'. auto.
+      as (f' & hd' & A' & B' & [C1' C2'] & _). cbn in B'. injection B' as <-.
+    pose proof (inv_shape _ _ _ _ _ I (i, j) f' (pairs_complete _ i j Hi Hj) A') as Sh'.
+    cbn in *. exists f'. auto.
   - intros (sz & bt & Hn & Kb & Hall).
     destruct (loop_clean dir N parts sz bt Hn Kb (pairs c (length parts)) (None, fun _ _ => None))
       as [st' El].
@@ -746,7 +793,7 @@ Proof.
     destruct (inv_blocks _ _ _ _ _ I (0, 0) (pairs_complete _ 0 0 H0 H0))
       as (f & hd & A & B & [C1 C2] & D & E5).
     destruct st' as [[[sz' bt']|] blocks]; cbn in B; [|discriminate]. injection B as <-.
-    cbn in C1, C2. cbn [fst snd] in A. destruct (Hall 0 0 H0 H0) as (f0 & A0 & S0 & B0). rewrite A in A0.
+    cbn in C1, C2. cbn [fst snd] in A. destruct (Hall 0 0 H0 H0) as (f0 & A0 & S0 & B0 & Sh0). rewrite A in A0.
     injection A0 as <-. subst sz' bt'. rewrite S0, B0 in *.
     rewrite g_final, g_direct, g_interp, g_isize in E. cbn [resolve] in E.
     destruct (sz =? N) eqn:Esz.
@@ -762,3 +809,168 @@ Proof.
 Qed.
 
 End DataTheorems.
+
+(** ** The two in-package call sites *)
+
+(** *** EOM.getBoltzmannFiniteDifference: the only caller of CollisionArray.changeBasis on a
+    live array.  The method binds a second solver object from self.boltzmannSolver, rebinds
+    attributes on it, converts ITS collision array in place and calls getDeltas on it.
+    A CollisionArray is a mutable object: changeBasis rewrites the object it is called on, so
+    what the spectral solver sees afterwards depends on whether the two solvers share it. *)
+Inductive copykind := CDeep | CShallow | CAlias.
+Inductive fdstmt :=
+  | FBind (k : copykind)        (* X = copy.deepcopy(self.boltzmannSolver) / copy.copy / alias *)
+  | FSetField                   (* X.<other attribute> = ... *)
+  | FSetBasisN (b : basis)      (* X.basisN = b *)
+  | FChangeBasis (b : basis)    (* X.collisionArray.changeBasis(b) *)
+  | FGetDeltas.                 (* X.getDeltas(): uses X.collisionArray as if in basis X.basisN *)
+
+Record fdstate := mkfd {
+  fd_orig : carray;  fd_orig_basisN : basis;          (* the spectral solver *)
+  fd_copy : carray;  fd_copy_basisN : basis;          (* the finite-difference solver *)
+  fd_share_array : bool; fd_share_solver : bool;
+  fd_used : list (basis * basis)                      (* (basisN, array label) at each getDeltas *)
+}.
+
+Definition fd_step (s : fdstate) (st : fdstmt) : outcome fdstate :=
+  match st with
+  | FBind k =>
+    Ok (mkfd (fd_orig s) (fd_orig_basisN s) (fd_orig s) (fd_orig_basisN s)
+             (match k with CDeep => false | _ => true end)
+             (match k with CAlias => true | _ => false end) (fd_used s))
+  | FSetField => Ok s
+  | FSetBasisN b =>
+    Ok (mkfd (fd_orig s) (if fd_share_solver s then b else fd_orig_basisN s)
+             (fd_copy s) b (fd_share_array s) (fd_share_solver s) (fd_used s))
+  | FChangeBasis b =>
+    match changeBasis (fd_copy s) b with
+    | Err k => Err k
+    | Ok a => Ok (mkfd (if fd_share_array s then a else fd_orig s) (fd_orig_basisN s)
+                       a (fd_copy_basisN s) (fd_share_array s) (fd_share_solver s) (fd_used s))
+    end
+  | FGetDeltas =>
+    Ok (mkfd (fd_orig s) (fd_orig_basisN s) (fd_copy s) (fd_copy_basisN s)
+             (fd_share_array s) (fd_share_solver s)
+             (fd_used s ++ [(fd_copy_basisN s, a_label (fd_copy s))]))
+  end.
+
+Fixpoint fd_run (prog : list fdstmt) (s : fdstate) : outcome fdstate :=
+  match prog with
+  | [] => Ok s
+  | st :: prog' => match fd_step s st with Ok s' => fd_run prog' s' | Err k => Err k end
+  end.
+
+Definition fd_init (a : carray) (bN : basis) : fdstate := mkfd a bN a bN true true [].
+
+(** label bookkeeping alone (labels evolve independently of the numbers) *)
+Fixpoint fd_labels (prog : list fdstmt) (bN lab : basis) : list (basis * basis) :=
+  match prog with
+  | [] => []
+  | FBind _ :: p | FSetField :: p => fd_labels p bN lab
+  | FSetBasisN b :: p => fd_labels p b lab
+  | FChangeBasis b :: p => fd_labels p bN b
+  | FGetDeltas :: p => (bN, lab) :: fd_labels p bN lab
+  end.
+
+Definition all_bases := [Cardinal; Chebyshev].
+(** decidable goodness: the first statement deep-copies the solver, nothing rebinds it
+    later, and whatever the incoming basis, every getDeltas sees basisN = array label *)
+Definition fd_good (prog : list fdstmt) : bool :=
+  match prog with
+  | FBind CDeep :: rest =>
+    forallb (fun st => match st with FBind _ => false | _ => true end) rest &&
+    forallb (fun b0 => forallb (fun pr => basis_eqb (fst pr) (snd pr)) (fd_labels rest b0 b0))
+            all_bases &&
+    negb (Nat.eqb (length (fd_labels rest Cardinal Cardinal)) 0)
+  | _ => false
+  end.
+
+Lemma changeBasis_label a b a' : changeBasis a b = Ok a' -> a_label a' = b.
+Proof.
+  unfold changeBasis. destruct (basis_eqb (a_label a) b) eqn:E.
+  - intros H; injection H as <-. apply basis_eqb_eq; exact E.
+  - destruct (negb (known b)); [discriminate|]. intros H; injection H as <-. reflexivity.
+Qed.
+
+Lemma fd_run_unshared rest : forall s s',
+  forallb (fun st => match st with FBind _ => false | _ => true end) rest = true ->
+  fd_share_array s = false -> fd_share_solver s = false ->
+  fd_run rest s = Ok s' ->
+  fd_orig s' = fd_orig s /\ fd_orig_basisN s' = fd_orig_basisN s /\
+  fd_used s' = fd_used s ++ fd_labels rest (fd_copy_basisN s) (a_label (fd_copy s)).
+Proof.
+  induction rest as [|st rest IH]; intros s s' Hnb Ha Hs Hr; cbn [fd_run] in Hr.
+  - injection Hr as <-. cbn. rewrite app_nil_r. auto.
+  - cbn [forallb] in Hnb. apply andb_true_iff in Hnb. destruct Hnb as [Hst Hnb].
+    destruct (fd_step s st) as [s1|] eqn:E1; [|discriminate].
+    destruct st; try discriminate; cbn [fd_step] in E1.
+    + injection E1 as <-. exact (IH _ _ Hnb Ha Hs Hr).
+    + injection E1 as <-.
+      pose proof (fun A B => IH _ _ Hnb A B Hr) as IH'. cbn in IH'.
+      destruct (IH' Ha Hs) as (A & B & C). rewrite Hs in B. auto.
+    + destruct (changeBasis (fd_copy s) b) as [a|] eqn:Ec; [|discriminate].
+      injection E1 as <-.
+      pose proof (fun A B => IH _ _ Hnb A B Hr) as IH'. cbn in IH'.
+      destruct (IH' Ha Hs) as (A & B & C).
+      rewrite Ha in A. rewrite (changeBasis_label _ _ _ Ec) in C. auto.
+    + injection E1 as <-.
+      pose proof (fun A B => IH _ _ Hnb A B Hr) as IH'. cbn in IH'.
+      destruct (IH' Ha Hs) as (A & B & C). rewrite C, <- app_assoc. auto.
+Qed.
+
+(** the finite-difference estimate leaves the spectral solver's array (numbers AND label) and
+    its basisN untouched, and the finite-difference solver only ever applies an array whose
+    label is its own basisN *)
+Theorem fd_isolated prog : fd_good prog = true -> forall a bN s',
+  a_label a = bN -> known bN = true ->
+  fd_run prog (fd_init a bN) = Ok s' ->
+  fd_orig s' = a /\ fd_orig_basisN s' = bN /\
+  fd_used s' <> [] /\ forall pr, In pr (fd_used s') -> fst pr = snd pr.
+Proof.
+  intros G a bN s' Hl Hk Hr. unfold fd_good in G.
+  destruct prog as [|[[| |]| | | |] rest]; try discriminate.
+  apply andb_true_iff in G. destruct G as [G G3]. apply andb_true_iff in G. destruct G as [G1 G2].
+  cbn [fd_run fd_step fd_init] in Hr.
+  pose proof (fun X Y => fd_run_unshared rest _ s' G1 X Y Hr) as HU. cbn in HU.
+  destruct (HU eq_refl eq_refl) as (A & B & C). split; [exact A|]. split; [exact B|].
+  rewrite C, Hl.
+  assert (Hlen : forall b1 b2 b3 b4, length (fd_labels rest b1 b2) = length (fd_labels rest b3 b4)).
+  { clear. induction rest as [|[]]; intros; cbn; auto. }
+  split.
+  - intros E. apply (f_equal (@length _)) in E. cbn in E.
+    rewrite (Hlen bN bN Cardinal Cardinal) in E.
+    apply negb_true_iff, Nat.eqb_neq in G3. lia.
+  - unfold all_bases in G2. cbn [forallb] in G2.
+    apply andb_true_iff in G2. destruct G2 as [Gc G2]. apply andb_true_iff in G2.
+    destruct G2 as [Gh _].
+    intros pr Hin. destruct bN.
+    + rewrite forallb_forall in Gc. apply basis_eqb_eq. apply Gc. exact Hin.
+    + rewrite forallb_forall in Gh. apply basis_eqb_eq. apply Gh. exact Hin.
+    + discriminate Hk.
+Qed.
+
+(** *** WallGoManager.setupWallSolver: the only caller of loadCollisions.  [hs] are the
+    handlers of every try statement enclosing the call (none in the shipped code); the load
+    runs iff the setting bIncludeOffEquilibrium is on, and eom.includeOffEq is that setting
+    (both required by the extractor). *)
+Definition manager_setup (hs : list (errkind * hact)) (include : bool) (s : solver)
+           (load : solver * outcome unit) : outcome (solver * bool) :=
+  if include then
+    match snd load with
+    | Ok _ => Ok (fst load, true)
+    | Err k => match handler hs k with
+               | Err k' => Err k'
+               | Ok _ => Ok (fst load, true)     (* swallowed: goes on without an array *)
+               end
+    end
+  else Ok (s, false).
+
+(** with off-equilibrium requested: a complete array, or the load's own error -- never a
+    wall solver that silently runs without collisions *)
+Theorem manager_propagates hs : handlers_ok hs = true -> forall s load,
+  manager_setup hs true s load =
+  match snd load with Ok _ => Ok (fst load, true) | Err k => Err k end.
+Proof.
+  intros H s load. unfold manager_setup. destruct (snd load); [reflexivity|].
+  rewrite handler_reraise by exact H. reflexivity.
+Qed.
